@@ -849,3 +849,25 @@ def discr_type_of_switch(fn, bb):
             ty = place_type(fn, s.rv.place)
             return strip_generics(strip_ref(ty)) if ty else None
     return None
+
+
+def named_local_behind(fn, op, hops=4):
+    """debug name of the user variable an operand refers to (through refs/moves of temporaries), or None"""
+    pl = op.place
+    for _ in range(hops):
+        if pl is None:
+            return None
+        nm = fn.local_name(pl.local)
+        if nm is not None:
+            return nm
+        defs = [d for d in local_defs(fn).get(pl.local, []) if d[1] == "assign"]
+        if len(defs) != 1:
+            return None
+        rv = defs[0][2].rv
+        if rv.k in ("ref", "rawptr", "copy_for_deref"):
+            pl = rv.place
+        elif rv.k == "use" and rv.ops[0].place is not None:
+            pl = rv.ops[0].place
+        else:
+            return None
+    return None
